@@ -60,6 +60,8 @@ var lfDocs = map[int]lfDoc{
 	3: {keys: []lfKey{{"a", "p521", []docdid.VerificationRelationship{docdid.AssertionMethod}}, {"b", "p256", []docdid.VerificationRelationship{docdid.Authentication, docdid.KeyAgreement}}},
 		svcs: []string{"https://one.example/x", "did:example:123"}, aka: []string{"https://first.example/", "HTTPS://Second.Example/zoë"}},
 	4: {svcs: []string{"https://only-a-service.example/"}},
+	// 5: the largest document the VDR accepts (its endpoint is lengthened at start-up until Create refuses)
+	5: {keys: []lfKey{{"key-1", "ed", []docdid.VerificationRelationship{docdid.Authentication}}}, svcs: []string{"https://hub.example/"}},
 }
 
 var relName = map[docdid.VerificationRelationship]string{
@@ -221,7 +223,59 @@ func longformReplay(args []string) {
 		fatalf("dochandler: %v", err)
 	}
 
+	// document 5: the longest service endpoint for which Create still succeeds (what is created must resolve,
+	// however large it is)
+	{
+		accepted := func(n int) bool {
+			d5 := lfDocs[5]
+			d5.svcs = []string{"https://hub.example/" + strings.Repeat("a", n)}
+			lfDocs[5] = d5
+
+			dd, err := d5.build(pool)
+			if err != nil {
+				return false
+			}
+
+			upd := pool.Get("ed", "lf-upd-1").Pub.(ed25519.PublicKey)
+			rec := pool.Get("ed", "lf-rec-1").Pub.(ed25519.PublicKey)
+			_, err = vdr.Create(dd, vdrapi.WithOption(sidetreelongform.UpdatePublicKeyOpt, upd), vdrapi.WithOption(sidetreelongform.RecoveryPublicKeyOpt, rec))
+
+			return err == nil
+		}
+
+		lo, hi := 0, 20000 // accepted(lo), !accepted(hi)
+		if !accepted(lo) || accepted(hi) {
+			fatalf("document 5: no size limit found")
+		}
+
+		for hi-lo > 1 {
+			if mid := (lo + hi) / 2; accepted(mid) {
+				lo = mid
+			} else {
+				hi = mid
+			}
+		}
+
+		accepted(lo)
+		col.sum.Extra["largest_endpoint_accepted"] = lo
+	}
+
 	createdDID := map[string]string{}
+
+	// results handed out earlier stay what they were, whatever the handler / VDR serves afterwards
+	type heldResult struct {
+		what string
+		now  func() string
+		then string
+	}
+
+	var held []heldResult
+
+	hold := func(what string, now func() string) {
+		if len(held) < 3000 {
+			held = append(held, heldResult{what, now, now()})
+		}
+	}
 
 	var singleChar int64
 
@@ -345,6 +399,9 @@ func longformReplay(args []string) {
 			if !check("read", rd) {
 				return
 			}
+
+			hold("VDR.Read "+did, func() string { b, _ := rd.DIDDocument.JSONBytes(); return string(b) })
+			hold("VDR.Create "+did, func() string { b, _ := res.DIDDocument.JSONBytes(); return string(b) })
 
 			// metadata: the short form is an equivalent id, the commitments are those of the keys supplied
 			md := rd.DocumentMetadata
@@ -569,8 +626,19 @@ func longformReplay(args []string) {
 			if c.Resolves && r1.Document.ID() != did {
 				fail("document-id", "", did, r1.Document.ID())
 			}
+
+			if c.Resolves {
+				hold("ResolveDocument "+did, func() string { return digestJSON(r1) })
+			}
 		}
 	})
+
+	for _, h := range held {
+		if now := h.now(); now != h.then {
+			col.report(mismatch{Kind: "result-changed-later", Key: "result-changed-later:" + strings.SplitN(h.what, " ", 2)[0], Case: h.what,
+				Detail: "a result handed out earlier was modified by later calls on the same handler / VDR", Expected: h.then, Actual: now})
+		}
+	}
 
 	col.sum.Extra["single_character_changes"] = singleChar
 	col.finish()
